@@ -100,3 +100,154 @@ Theorem components_of_set_refuted :
   let ds := [mktdef nS false [Own na]; mktdef nT false [Own ne; ComponentsOf nS]] in
   expanded_members ds nT = Some [ne; na] /\ linked_members ds nT = Some [ne].
 Proof. vm_compute. split; reflexivity. Qed.
+
+(* ================= the whole pass, for chains of depth one ================= *)
+Require Import RasnV.Proofs.Driver.
+From Coq Require Import Sorting.Sorted Permutation.
+
+Definition step (st : list lstate) (x : str) : list lstate :=
+  match find_state x st with
+  | Some s => replace_state (link_one st s) st
+  | None => st
+  end.
+
+Lemma link_pass_fold order st : link_pass order st = fold_left step order st.
+Proof. reflexivity. Qed.
+
+Lemma find_state_name k st s : find_state k st = Some s -> l_name s = k.
+Proof.
+  induction st as [|x r IH]; cbn; [discriminate|].
+  destruct (str_eqb k (l_name x)) eqn:E; [intro H; inversion H; subst; apply str_eqb_eq in E; now symmetry | exact IH].
+Qed.
+
+Lemma str_eqb_refl a : str_eqb a a = true.
+Proof. apply str_eqb_eq. reflexivity. Qed.
+
+Lemma str_eqb_neq a b : a <> b -> str_eqb a b = false.
+Proof. intro H. destruct (str_eqb a b) eqn:E; [apply str_eqb_eq in E; contradiction | reflexivity]. Qed.
+
+Lemma find_replace_other s st k : l_name s <> k -> find_state k (replace_state s st) = find_state k st.
+Proof.
+  intro Hne. induction st as [|x r IH]; cbn; [reflexivity|].
+  destruct (str_eqb (l_name s) (l_name x)) eqn:E.
+  - apply str_eqb_eq in E. cbn. rewrite <- E. rewrite (str_eqb_neq k (l_name s)) by congruence. reflexivity.
+  - cbn. destruct (str_eqb k (l_name x)); [reflexivity | exact IH].
+Qed.
+
+Lemma find_replace_same s st old : find_state (l_name s) st = Some old -> find_state (l_name s) (replace_state s st) = Some s.
+Proof.
+  induction st as [|x r IH]; cbn; [discriminate|].
+  destruct (str_eqb (l_name s) (l_name x)) eqn:E.
+  - intros _. cbn. now rewrite str_eqb_refl.
+  - intro H. cbn. rewrite E. now apply IH.
+Qed.
+
+Lemma find_replace_key s st k old : l_name s = k -> find_state k st = Some old -> find_state k (replace_state s st) = Some s.
+Proof. intros <- H. exact (find_replace_same s st old H). Qed.
+
+Lemma step_other st x k : x <> k -> find_state k (step st x) = find_state k st.
+Proof.
+  intro Hne. unfold step. destruct (find_state x st) as [s|] eqn:E; [|reflexivity].
+  apply find_replace_other. cbn. rewrite (find_state_name _ _ _ E). exact Hne.
+Qed.
+
+Lemma fold_other l : forall st k, ~ In k l -> find_state k (fold_left step l st) = find_state k st.
+Proof.
+  induction l as [|x l IH]; intros st k Hk; [reflexivity|]. cbn [fold_left].
+  rewrite IH by (intro; apply Hk; now right). apply step_other. intro; apply Hk; now left.
+Qed.
+
+Lemma link_one_norefs st s : l_refs s = [] -> link_one st s = s.
+Proof. intro H. unfold link_one. rewrite H. cbn. rewrite app_nil_r. destruct s; cbn in *; now subst. Qed.
+
+Lemma step_norefs st r s : find_state r st = Some s -> l_refs s = [] -> find_state r (step st r) = Some s.
+Proof.
+  intros Hf Hr. unfold step. rewrite Hf, (link_one_norefs st s Hr).
+  rewrite <- (find_state_name _ _ _ Hf). now apply (find_replace_same s st s); rewrite (find_state_name _ _ _ Hf).
+Qed.
+
+Lemma fold_stable l : forall st r s, find_state r st = Some s -> l_refs s = [] -> find_state r (fold_left step l st) = Some s.
+Proof.
+  induction l as [|x l IH]; intros st r s Hf Hr; [exact Hf|]. cbn [fold_left]. apply IH; [|exact Hr].
+  destruct (str_eqb x r) eqn:E.
+  - apply str_eqb_eq in E. subst x. now apply step_norefs.
+  - rewrite step_other; [exact Hf|]. intro Hx. subst. rewrite str_eqb_refl in E. discriminate.
+Qed.
+
+Lemma find_init ds n d : find_def n ds = Some d -> find_state n (map init_state ds) = Some (init_state d).
+Proof.
+  induction ds as [|x r IH]; cbn; [discriminate|]. unfold init_state at 1. cbn [l_name].
+  destruct (str_eqb n (t_name x)); [intro H; now inversion H | exact IH].
+Qed.
+
+Lemma expand_owns f ds k items : refs_of items = [] -> expand f ds k items = own_names items.
+Proof.
+  intro H. destruct f; [reflexivity|]. cbn [expand].
+  induction items as [|[n|r] l IH]; cbn in *; [reflexivity | now rewrite IH | discriminate].
+Qed.
+
+Lemma sorted_keys_nodup {V} (m : list (str * V)) : sorted m -> NoDup (map fst m).
+Proof.
+  induction 1 as [|p r Hs IH Hall]; cbn; constructor; [|exact IH].
+  intro Hin. apply in_map_iff in Hin as [q [Hq Hin]]. rewrite Forall_forall in Hall. specialize (Hall q Hin).
+  unfold klt in Hall. rewrite Hq in Hall. exact (lt_irrefl _ Hall).
+Qed.
+
+Lemma descending_nodup ds : NoDup (descending ds).
+Proof.
+  unfold descending. apply NoDup_rev. apply sorted_keys_nodup. rewrite from_list_rev. apply from_list_r_sorted.
+Qed.
+
+Lemma find_def_in ds n d : find_def n ds = Some d -> In d ds /\ t_name d = n.
+Proof.
+  induction ds as [|x r IH]; cbn; [discriminate|]. destruct (str_eqb n (t_name x)) eqn:E.
+  - intro H. inversion H; subst. apply str_eqb_eq in E. split; [now left | now symmetry].
+  - intro H. destruct (IH H). split; [now right | assumption].
+Qed.
+
+Lemma descending_in ds n d : NoDup (map t_name ds) -> find_def n ds = Some d -> In n (descending ds).
+Proof.
+  intros Hnd Hf. destruct (find_def_in _ _ _ Hf) as [Hin Hn]. unfold descending. apply -> in_rev.
+  apply in_map_iff. exists (t_name d, d). split; [exact Hn|]. now apply in_from_list.
+Qed.
+
+(* for every definition whose COMPONENTS OF entries come last and refer to SEQUENCE types that use no COMPONENTS OF
+   themselves, whatever else the module contains and however the names sort, the pass yields the expansion *)
+Theorem link_pass_depth_one ds n own refs :
+  NoDup (map t_name ds) ->
+  find_def n ds = Some (mktdef n true (map Own own ++ map ComponentsOf refs)) ->
+  (forall r, In r refs -> r <> n /\ exists dr, find_def r ds = Some dr /\ t_is_seq dr = true /\ refs_of (t_items dr) = []) ->
+  linked_members ds n = expanded_members ds n.
+Proof.
+  intros Hnd Hd Hrefs. unfold linked_members, expanded_members. rewrite Hd. cbn [option_map t_is_seq t_items].
+  rewrite link_pass_fold.
+  destruct (in_split _ _ (descending_in ds n _ Hnd Hd)) as [a [b Hsplit]].
+  pose proof (descending_nodup ds) as Hnodup. rewrite Hsplit in Hnodup.
+  assert (Hna : ~ In n a) by (apply NoDup_remove_2 in Hnodup; intro; apply Hnodup; apply in_or_app; now left).
+  assert (Hnb : ~ In n b) by (apply NoDup_remove_2 in Hnodup; intro; apply Hnodup; apply in_or_app; now right).
+  rewrite Hsplit, fold_left_app. cbn [fold_left].
+  set (st0 := map init_state ds). set (st1 := fold_left step a st0).
+  rewrite (fold_other b _ n Hnb).
+  assert (Hn1 : find_state n st1 = Some (init_state (mktdef n true (map Own own ++ map ComponentsOf refs)))).
+  { unfold st1. rewrite (fold_other a st0 n Hna). now apply find_init. }
+  assert (Hr1 : forall r, In r refs -> exists dr, find_def r ds = Some dr /\ t_is_seq dr = true /\ refs_of (t_items dr) = [] /\
+                                               find_state r st1 = Some (init_state dr)).
+  { intros r Hr. destruct (Hrefs r Hr) as [_ [dr [Hf [Hk Hn0]]]]. exists dr. repeat split; try assumption.
+    unfold st1. apply fold_stable; [now apply find_init | exact Hn0]. }
+  unfold step. rewrite Hn1.
+  match goal with |- context [replace_state ?s st1] =>
+    assert (Hnm : l_name s = n) by reflexivity;
+    assert (Hsame : find_state n (replace_state s st1) = Some s)
+      by (exact (find_replace_key s st1 n _ Hnm Hn1))
+  end.
+  rewrite Hsame. cbn [option_map]. f_equal.
+  destruct ds as [|d0 ds']; [discriminate|]. cbn [length].
+  rewrite expand_trailing. unfold link_one, init_state. cbn [l_members l_refs t_items t_name t_is_seq].
+  rewrite own_names_app, own_names_owns, own_names_refs, app_nil_r, refs_of_app, refs_of_owns, refs_of_refs. cbn [app]. f_equal.
+  clear Hn1 Hd Hsplit Hnodup Hna Hnb Hsame Hnm. induction refs as [|r l IH]; [reflexivity|]. cbn [flat_map].
+  destruct (Hr1 r (or_introl eq_refl)) as [dr [Hf [Hk [Hn0 Hs]]]].
+  rewrite Hs, Hf, Hk. cbn [init_state l_is_seq l_members Bool.eqb]. rewrite Hk. cbn [Bool.eqb].
+  rewrite (expand_owns _ _ _ _ Hn0). f_equal. apply IH.
+  - intros r' Hr'. apply Hrefs. now right.
+  - intros r' Hr'. apply Hr1. now right.
+Qed.
